@@ -83,7 +83,7 @@ func (v *Vue) interpolateToWriter(ctx VueContext, w io.Writer, input string) err
 		} else {
 			// Simple variable reference
 			var ok bool
-			val, ok = ctx.stack.Resolve(expr)
+			val, ok = v.resolveOperand(ctx, expr)
 			if !ok {
 				val = nil
 			}
